@@ -64,23 +64,23 @@ WITNESS = {
 }
 
 GENS = [
-    G("tab1", 8, -1, 1, 1, "table", 5, dict(quick=200, thorough=4000), ["C08"], gridhalf=10, sw=True),
-    G("tab2", 4, 0, 0, 1, "table", 4, dict(quick=100, thorough=2000), ["C08"], gridhalf=6),
-    G("tab3", 3, -2, 3, 1, "table", 4, dict(quick=60, thorough=1500), ["C08"], gridhalf=5),
-    G("free1", 8, -1, 1, 1, "free", 14, dict(quick=100, thorough=2000), ["C08"], sw=True),
-    G("free2", 5, 0, 2, 1, "free", 14, dict(quick=60, thorough=1500), ["C08"]),
+    G("tab1", 8, -1, 1, 1, "table", 5, dict(quick=200, thorough=20000), ["C08"], gridhalf=10, sw=True),
+    G("tab2", 4, 0, 0, 1, "table", 4, dict(quick=100, thorough=10000), ["C08"], gridhalf=6),
+    G("tab3", 3, -2, 3, 1, "table", 4, dict(quick=60, thorough=7500), ["C08"], gridhalf=5),
+    G("free1", 8, -1, 1, 1, "free", 14, dict(quick=100, thorough=10000), ["C08"], sw=True),
+    G("free2", 5, 0, 2, 1, "free", 14, dict(quick=60, thorough=7500), ["C08"]),
     # storage faults at the Remove / Load / Store of the roots record, and calls that see another certificate lifetime
-    G("flt1", 8, -1, 1, 1, "faulty", 14, dict(quick=80, thorough=1500), ["C08"], sw=True),
-    G("flt2", 6, 0, 0, 1, "faulty", 12, dict(quick=40, thorough=1000), ["C08"]),
-    G("cad1", 8, -1, 1, 4, "cadence", 60, dict(quick=60, thorough=800), ["C09", "C08"]),
-    G("cad2", 8, 0, 0, 2, "cadence", 60, dict(quick=40, thorough=600), ["C09"]),
-    G("cad3", 12, -1, 2, 3, "cadence", 80, dict(quick=30, thorough=600), ["C09"]),
-    G("cad4", 9, 0, 0, 6, "cadence", 60, dict(quick=30, thorough=600), ["C09"]),
+    G("flt1", 8, -1, 1, 1, "faulty", 14, dict(quick=80, thorough=7500), ["C08"], sw=True),
+    G("flt2", 6, 0, 0, 1, "faulty", 12, dict(quick=40, thorough=5000), ["C08"]),
+    G("cad1", 8, -1, 1, 4, "cadence", 60, dict(quick=60, thorough=4000), ["C09", "C08"]),
+    G("cad2", 8, 0, 0, 2, "cadence", 60, dict(quick=40, thorough=3000), ["C09"]),
+    G("cad3", 12, -1, 2, 3, "cadence", 80, dict(quick=30, thorough=3000), ["C09"]),
+    G("cad4", 9, 0, 0, 6, "cadence", 60, dict(quick=30, thorough=3000), ["C09"]),
     # server cadence close to the validity span (late promotions); the node bound degenerates to ~0 there
-    G("cad5", 8, 0, 0, 7, "cadence", 60, dict(quick=40, thorough=600), ["C09"]),
-    G("cad7", 16, 0, 0, 14, "cadence", 50, dict(quick=60, thorough=800), ["C09"]),
-    G("cad8", 16, -2, 2, 17, "cadence", 50, dict(quick=40, thorough=600), ["C09"]),
-    G("cad6", 8, -1, 1, 8, "cadence", 60, dict(quick=40, thorough=600), ["C09"]),
+    G("cad5", 8, 0, 0, 7, "cadence", 60, dict(quick=40, thorough=3000), ["C09"]),
+    G("cad7", 16, 0, 0, 14, "cadence", 50, dict(quick=60, thorough=4000), ["C09"]),
+    G("cad8", 16, -2, 2, 17, "cadence", 50, dict(quick=40, thorough=3000), ["C09"]),
+    G("cad6", 8, -1, 1, 8, "cadence", 60, dict(quick=40, thorough=3000), ["C09"]),
 ]
 
 
